@@ -54,6 +54,10 @@ TCallOnSession == Is("Call") /\ E.arg \in {"valid", "valid-refused"} /\ E.sid \i
          /\ (IF E.kind = "poll" /\ E.status = 200 THEN O!OAnswer(E.sid, "poll", 200, E.first, E.count)
                                                    ELSE O!OAnswer(E.sid, E.kind, E.status, 0, 0))
                /\ Step
+\* a data call carrying a message of an unsupported JSON shape: answered, whatever the status; nothing of it may
+\* reach the backend (any BackendRecv must be the next numbered message) and the session stays usable
+TCallShaped == Is("Call") /\ E.arg = "shaped" /\ O!OkStatus(E.status) /\ Same
+               /\ Step
 TCallRejected == Is("Call") /\ E.arg \in {"unknown", "closed", "malformed"} /\ E.status = 400 /\ Same
                /\ Step
 \* end of a scenario: nothing panicked, everything accepted was delivered, closed sessions reached the backend
@@ -66,9 +70,9 @@ TDial == Is("OpenCase") /\ Same /\ O!OkStatus(E.status)
          \* requests outside the shim prefix reach the wrapped handler untouched (the harness reports 200 iff they did)
          /\ (E.class = "outside-prefix" => (E.status = 200 /\ E.dialed = <<>>))
                /\ Step
-TOther == (Is("WsStore") \/ Is("WsDelete")) /\ Same
+TOther == (Is("WsStore") \/ Is("WsDelete") \/ Is("BackendRecvEmpty")) /\ Same
                /\ Step
 TNext == TReset \/ TOpened \/ TOpenFailed \/ TDataBegin \/ TCloseBegin \/ TBackendRecv \/ TBackendSend \/ TBackendClose
-         \/ TBackendSawClose \/ TCallOnSession \/ TCallRejected \/ TFinal \/ TDial \/ TOther
+         \/ TBackendSawClose \/ TCallOnSession \/ TCallShaped \/ TCallRejected \/ TFinal \/ TDial \/ TOther
 TSpec == TInit /\ [][TNext]_<<svars, l>>
 =============================================================================
